@@ -60,7 +60,7 @@ func TestVerifC06(t *testing.T) {
 	sim.Main(t, sim.Config{
 		Prop:     "C06",
 		Scenario: c06Scenario,
-		Runs:     map[string]int{"quick": 2500, "thorough": 400000},
+		Runs:     map[string]int{"quick": 20000, "thorough": 800000},
 		Real:     []string{"RegConfig.ParseBlocklists / ParseOrResolveBlocklisted / isBlocklistedCovertAddr / isBlocklistedCovertDomain", "ingestRegistration (covert overwritten with the resolved literal)", "handleNewTCPConn -> Proxy -> dial of the stored string", "min transport end to end"},
 		Stub:     []string{"net.ResolveIPAddr for names (scripted resolver; literals and the empty host go to the real function, which does no DNS for them)", "net.Dial (recording seam + echo host)", "TCP, liveness, detector, ZMQ"},
 		Rule: "random: policy {5 blocklists x 5 allowlists x 4 domain-pattern sets} x up to 6 registrations whose covert string comes from a grammar: canonical IPv4/IPv6 literals inside and outside the lists, v4-mapped, zoned, unbracketed, expanded, empty host, missing / zero / oversized / signed / padded / non-numeric ports, hostnames (incl. numeric look-alikes such as 0x0a.0.0.1), garbage; resolver scripts per name (permitted-then-forbidden, forbidden-then-permitted, NXDOMAIN, timeout). Every registration is followed by a genuine connection; the dialled string is judged by an independent evaluator. " +
